@@ -73,6 +73,9 @@ pub struct Options {
     pub survey: bool,
     /// Directory holding the summaries of the two-build exchange steps (embedded in the evidence).
     pub xsummary: Option<String>,
+    /// A JSON object file whose keys are merged into the evidence's coverage (results of steps the
+    /// wrapper ran outside this process, e.g. the Miri step of C04).
+    pub extra_json: Option<String>,
 }
 
 impl Options {
@@ -414,6 +417,13 @@ pub fn run_batch(scen: &dyn Scenario, opts: &Options) -> i32 {
         rep.extra_evaluations += total as u64;
         rep.extra_distinct += total as u64;
         rep.extra.insert("cross_build_exchange".into(), J::Arr(v));
+    }
+    if let Some(path) = &opts.extra_json {
+        if let Ok(J::Obj(m)) = std::fs::read_to_string(path).map_err(|e| e.to_string()).and_then(|t| crate::json::parse(&t)) {
+            for (k, v) in m {
+                rep.extra.insert(k, v);
+            }
+        }
     }
     let wall = t0.elapsed().as_secs_f64();
     if opts.write_evidence && status != 2 {
